@@ -17,6 +17,9 @@ type case = {
   claims : (int * int) list;
   mus : (int * (int * int * int)) list;
   racts : (int * ract list) list;
+  facts : (int * ract list) list;        (* calls of the focus handler, made when the window itself is told IN *)
+  gacts : (int * ract list) list;        (* calls of the geomchange handler *)
+  fcacts : (int * ract list) list;       (* calls of the focus handler, made when the window is told IN about a child *)
   items : item list;
 }
 
@@ -43,7 +46,7 @@ let parse_case (line : string) : case =
   match toks with
   | "W" :: tk :: nl :: nc :: pol :: rest ->
     let hdr = { tk = tk.[0]; nl = int_of_string nl; nc = int_of_string nc; pol } in
-    let progs = ref [] and claims = ref [] and mus = ref [] and racts = ref [] and items = ref [] in
+    let progs = ref [] and claims = ref [] and mus = ref [] and racts = ref [] and facts = ref [] and gacts = ref [] and fcacts = ref [] and items = ref [] in
     let b x = x <> 0 in
     let rec go toks =
       match toks with
@@ -56,7 +59,8 @@ let parse_case (line : string) : case =
         let id = int_of_string id in
         let old = try List.assoc id !progs with Not_found -> [] in
         progs := (id, old @ ds) :: List.remove_assoc id !progs; go r'
-      | "RA" :: id :: n :: r ->
+      | (("RA" | "FA" | "GA" | "FC") as kind) :: id :: n :: r ->
+        let racts = (match kind with "RA" -> racts | "FA" -> facts | "FC" -> fcacts | _ -> gacts) in
         let n = int_of_string n in
         let rec acts k toks acc = if k = 0 then (List.rev acc, toks) else
             match toks with
@@ -69,6 +73,8 @@ let parse_case (line : string) : case =
             | "rf" :: w :: r' -> acts (k - 1) r' (RRestack (HRaiseFront, zi (int_of_string w)) :: acc)
             | "lo" :: w :: r' -> acts (k - 1) r' (RRestack (HLower, zi (int_of_string w)) :: acc)
             | "lb" :: w :: r' -> acts (k - 1) r' (RRestack (HLowerBack, zi (int_of_string w)) :: acc)
+            | "xc" :: w :: r' -> acts (k - 1) r' (RClose (zi (int_of_string w)) :: acc)
+            | "xd" :: w :: r' -> acts (k - 1) r' (RDestroy (zi (int_of_string w)) :: acc)
             | _ -> failwith "ract" in
         let (a, r') = acts n r [] in
         let id = int_of_string id in
@@ -126,7 +132,7 @@ let parse_case (line : string) : case =
       | t :: _ -> failwith ("op " ^ t)
     in
     go rest;
-    { hdr; progs = !progs; claims = !claims; mus = !mus; racts = !racts; items = List.rev !items }
+    { hdr; progs = !progs; claims = !claims; mus = !mus; racts = !racts; facts = !facts; gacts = !gacts; fcacts = !fcacts; items = List.rev !items }
   | _ -> failwith "header"
 
 (* for the k-th flush of a case: the restack requests made since the previous flush, in order; and whether
@@ -140,7 +146,7 @@ let restacks_per_flush (c : case) : (hchange * z) list list =
       | _ -> ()) c.items;
   List.rev !acc
 let has_reentrant_restack (c : case) =
-  List.exists (fun (_, acts) -> List.exists (function RRestack _ -> true | _ -> false) acts) c.racts
+  List.exists (fun (_, acts) -> List.exists (function RRestack _ | RClose _ | RDestroy _ -> true | _ -> false) acts) c.racts
 let has_restack (c : case) =
   has_reentrant_restack c || List.exists (function Op (ORestack _) -> true | _ -> false) c.items
 
@@ -344,7 +350,30 @@ let model (line : string) : string =
       | Op (OFocus id) ->
         sep (); pr "TF T="; pr_tree !m.m_root.r_tree;
         m := step cfg progs (OFocus id) !m;
-        pr " E="; pr_fevs !m.m_fevs
+        pr " E="; pr_fevs !m.m_fevs;
+        (* the window's own focus handler, told IN about itself (the last event), re-enters *)
+        (* (handlers told IN about a child come first, outermost first; the model applies what
+           they call after the whole change of focus, which is the same thing as long as they
+           only close the window that is being focused or one above it) *)
+        let fevs = !m.m_fevs in
+        List.iter (fun ((r, d), w) ->
+            if d && iz r <> iz w then
+              match List.assoc_opt (iz r) c.fcacts with
+              | Some acts -> m := { !m with m_root = run_acts cfg acts !m.m_root }
+              | None -> ()) fevs;
+        (match List.assoc_opt (iz id) c.facts with
+         | Some acts when List.exists (fun ((r, d), w) -> d && iz r = iz id && iz w = iz id) fevs ->
+           m := { !m with m_root = run_acts cfg acts !m.m_root }
+         | _ -> ())
+      | Op (OGeom (id, r, ex)) when List.mem_assoc (iz id) c.gacts ->
+        (* set_geometry; the geomchange handler (if the geometry changed) re-enters; then the
+           application's exposes of old and new area, if the window is still there *)
+        let st0 = !m.m_root in
+        let changed = (match t_find id st0.r_tree with
+            | Some (Node (i, _)) -> not (i.w_rect = r) | None -> false) in
+        let st1 = win_set_geometry st0 id r in
+        let st2 = if changed then run_acts cfg (List.assoc (iz id) c.gacts) st1 else st1 in
+        m := { !m with m_root = geom_exposes st0 st2 id ex }
       | Op (ONew (id, pid, r, a, b, c', d)) ->
         let k = iz id in
         if k > 0 && k < 24 && not (Hashtbl.mem used k) && t_find pid !m.m_root.r_tree <> None then begin
